@@ -959,6 +959,7 @@ func genCases(r *ev.Run) []caseSpec {
 	add("shared-prefix", 0, "schema-last",
 		fileSpec{Name: "base.bin", Size: 600*kib + rng.Intn(200*kib), Content: "random"},
 		fileSpec{Name: "base-extended.bin", Size: 150*kib + rng.Intn(200*kib), Content: "ext:base.bin"})
+	out[len(out)-1].Interleave = []string{"", "chunks-first"}[rng.Intn(2)]
 	add("two-files", 0, "schema-middle",
 		fileSpec{Name: "one.bin", Size: 550*kib + rng.Intn(100*kib), Content: "random"},
 		fileSpec{Name: "two.bin", Size: 550*kib + rng.Intn(100*kib), Content: "random"})
@@ -968,7 +969,7 @@ func genCases(r *ev.Run) []caseSpec {
 		fileSpec{Name: "late.bin", Size: 560*kib + rng.Intn(100*kib), Content: "random"})
 	out[len(out)-1].LateBlob = "last-chunk"
 	// client removes inside the live history
-	add("live-remove", 0, "schema-last", fileSpec{Name: "rm-after.bin", Size: 560*kib + rng.Intn(100*kib), Content: "random"})
+	add("live-remove", []int{0, 300 * kib}[rng.Intn(2)], "schema-last", fileSpec{Name: "rm-after.bin", Size: 560*kib + rng.Intn(100*kib), Content: "random"})
 	out[len(out)-1].Removes = "after-pack"
 	add("live-remove", 0, "schema-last", fileSpec{Name: "rm-before.bin", Size: 540*kib + rng.Intn(60*kib), Content: "random"})
 	out[len(out)-1].Removes = []string{"chunk-before-schema", "chunk-before-schema-reupload"}[rng.Intn(2)]
@@ -1031,22 +1032,34 @@ func genCases(r *ev.Run) []caseSpec {
 		add("live-remove", mz, orders[i%3], fileSpec{Name: fmt.Sprintf("rm%d.bin", i), Size: sz, Content: "random"})
 		out[len(out)-1].Removes = rm
 	}
-	add("live-remove", 0, "schema-last", // removes in a store that holds two files sharing chunks
-		fileSpec{Name: "rmbase.bin", Size: 600 * kib, Content: "random"},
-		fileSpec{Name: "rmbase-ext.bin", Size: 150 * kib, Content: "ext:rmbase.bin"})
-	out[len(out)-1].Removes = "after-pack"
+	for i, rm := range []string{"after-pack", "after-pack-no-reupload"} { // removes in a store that holds two files sharing chunks
+		n1 := fmt.Sprintf("rmbase%d.bin", i)
+		add("live-remove", 0, "schema-last",
+			fileSpec{Name: n1, Size: 600 * kib, Content: "random"},
+			fileSpec{Name: fmt.Sprintf("rmbase%d-ext.bin", i), Size: 150 * kib, Content: "ext:" + n1})
+		out[len(out)-1].Removes = rm
+	}
+	for i, rm := range []string{"after-pack-no-reupload", "after-pack-all", "after-pack-all"} {
+		mz := []int{0, 0, 400 * kib}[i]
+		add("live-remove", mz, orders[(i+1)%3], fileSpec{Name: fmt.Sprintf("rmall%d.bin", i), Size: 540*kib + rng.Intn(400*kib), Content: "random"})
+		out[len(out)-1].Removes = rm
+	}
 	// the production limit again: three zips
 	add("production-limit", 0, "schema-middle", fileSpec{Name: "thirtyfour.bin", Size: 33*mib + rng.Intn(2*mib), Content: "random"})
 	out[len(out)-1].Crash, out[len(out)-1].LiveAudit, out[len(out)-1].Loose = "pack-writes", "pack-writes", 2
-	for i := 0; i < 2; i++ { // disk lower layers: multi-zip and two files
-		if i == 0 {
-			add("disk-lower", 1<<20, "schema-middle", fileSpec{Name: "on-disk-multi.bin", Size: 2*mib + rng.Intn(mib), Content: "random"})
+	for i := 0; i < 4; i++ { // disk lower layers: multi-zip and two files
+		if i%2 == 0 {
+			add("disk-lower", 1<<20, "schema-middle", fileSpec{Name: fmt.Sprintf("on-disk-multi%d.bin", i), Size: 2*mib + rng.Intn(mib), Content: "random"})
 		} else {
+			n1 := fmt.Sprintf("dbase%d.bin", i)
 			add("disk-lower", 0, "schema-first",
-				fileSpec{Name: "dbase.bin", Size: 560 * kib, Content: "random"},
-				fileSpec{Name: "dbase-ext.bin", Size: 120 * kib, Content: "ext:dbase.bin"})
+				fileSpec{Name: n1, Size: 560 * kib, Content: "random"},
+				fileSpec{Name: fmt.Sprintf("dbase%d-ext.bin", i), Size: 120 * kib, Content: "ext:" + n1})
+			if i == 3 {
+				out[len(out)-1].Removes = "after-pack"
+			}
 		}
-		out[len(out)-1].Lower, out[len(out)-1].Loose = "disk", 2
+		out[len(out)-1].Lower, out[len(out)-1].Loose = []string{"disk", "disk", "diskpacked", "diskpacked"}[i], 2
 	}
 	// thorough tier
 	add("over-threshold", 0, "schema-first", fileSpec{Name: "exact.bin", Size: packThreshold, Content: "random"})
@@ -1233,7 +1246,8 @@ func run(r *ev.Run) {
 	r.Require("incomplete_at_last_schema", "any")
 	if r.Thorough() {
 		r.Require("incomplete_at_last_schema", "chunk-after-last-schema", "chunk-missing", "schema-only-early")
-		r.Require("live_removes", "chunk-before-schema", "chunk-before-schema-reupload")
+		r.Require("live_removes", "chunk-before-schema", "chunk-before-schema-reupload", "after-pack-no-reupload", "after-pack-all")
+		r.Require("lower_layers", "diskpacked")
 		r.Require("upload_order", "interleave:chunks-first")
 	}
 	r.Require("zip_shape", "manifest-with-repeated-chunk", "part>0")
